@@ -213,11 +213,20 @@ static bool runBudgeted(const std::function<void()> & f, unsigned seconds, const
 
 struct Obs {
     const Inst * I; const char * algo; unsigned budget; P::VList prev; bool havePrev = false; unsigned n = 0; std::string params;
+    M::QFunction prevQ; P::UpperBoundValueFunction prevUbV; bool havePrevUb = false;
+    // the state the solver starts from, recomputed with the solver's own helper calls: it is the "previous snapshot" of the first iteration
+    void seed(const PModel & m, double tolHelpers) {
+        P::BlindStrategies bs(1000000, tolHelpers);
+        prev = std::get<1>(bs(m, true)); havePrev = true;
+        P::FastInformedBound fib(1000000, tolHelpers);
+        prevQ = std::get<1>(fib(m)); prevUbV = { {I->b0}, {(I->b0.transpose() * prevQ).maxCoeff()} }; havePrevUb = true;
+    }
     bool operator()(const AIToolbox::Verif::AnytimeSnapshot & s) {
         std::printf("#in %s iteration %u\n", algo, s.iteration + 1);      // keeps the crash attribution next to the crash
         Line l; putHead(l, "snap", *I); l << algo << s.iteration << havePrev; putVList(l, prev, false);
+        l << havePrevUb; if (havePrevUb) { putMatrix(l, prevQ); putUbV(l, prevUbV); }
         l << "|" << s.lb << s.ub; putVList(l, *s.lbVList, false); putMatrix(l, *s.ubQ); putUbV(l, *s.ubV); l.emit();
-        prev = *s.lbVList; havePrev = true; ++n;
+        prev = *s.lbVList; havePrev = true; prevQ = *s.ubQ; prevUbV = *s.ubV; havePrevUb = true; ++n;
         return n < budget;
     }
 };
@@ -226,6 +235,7 @@ static void runSarsop(Rng & rng, const Inst & I, const PModel & m, const std::st
     static const double tols[] = {0.1, 0.01, 1.0, 0.001}; static const double deltas[] = {0.1, 0.01, 0.5};
     double tol = tols[rng.below(4)], delta = deltas[rng.below(3)];
     Obs ob{&I, "SARSOP", tier == "thorough" ? 80u : 30u};
+    ob.seed(m, std::min(0.00001, tol));
     AIToolbox::Verif::anytimeObserver = std::ref(ob);
     std::printf("#in SARSOP tol=%g delta=%g shape=%s\n", tol, delta, I.shape.c_str()); std::fflush(stdout);
     P::SARSOP sarsop(tol, delta);
@@ -248,6 +258,7 @@ static void runGapMin(Rng & rng, const Inst & I, const PModel & m, const std::st
     if (I.gapDigits) digits = I.gapDigits;
     if (g <= 0.875) tol = 0.01;
     Obs ob{&I, "GapMin", tier == "thorough" ? 30u : 12u};
+    ob.seed(m, tol);
     AIToolbox::Verif::anytimeObserver = std::ref(ob);
     std::printf("#in GapMin tol=%g digits=%u shape=%s\n", tol, digits, I.shape.c_str()); std::fflush(stdout);
     P::GapMin gm(tol, digits);
